@@ -11,7 +11,7 @@ import (
 
 func main() {
 	if len(os.Args) < 2 {
-		fmt.Fprintln(os.Stderr, "usage: rel <tm|hist|ref|race> [flags]")
+		fmt.Fprintln(os.Stderr, "usage: rel <tm|hist|ref|race|ilv> [flags]")
 		os.Exit(2)
 	}
 	fs := flag.NewFlagSet(os.Args[1], flag.ExitOnError)
@@ -28,6 +28,8 @@ func main() {
 		runRef(*n, *out, *replay)
 	case "race":
 		runRace(*n, *out, *replay)
+	case "ilv":
+		runIlv(*n, *out, *replay)
 	default:
 		fmt.Fprintln(os.Stderr, "unknown subcommand")
 		os.Exit(2)
